@@ -1976,11 +1976,11 @@ class GroupBy:
 
         col_names = self._col_names_from_value_names(value_names)
 
-        result = (
-            pd.DataFrame(dict(zip(col_names, value_list)), copy=False)
-            .iloc[ilocs]
-            .set_index(out_index)
-        )
+        result = pd.DataFrame(dict(zip(col_names, value_list)), copy=False).iloc[ilocs]
+        if len(ilocs) == len(value_list[0]):
+            # selecting every row in order can hand back a view of the caller's arrays
+            result = result.copy()
+        result = result.set_index(out_index)
         result = self._maybe_squeeze_to_1d(
             result, values=values, n_values=len(value_names)
         )
